@@ -9,6 +9,12 @@ CHECKS = {
  'C01': dict(level='proof', design='3.C01',
    technique='static dataflow normalisation of optimised LLVM IR: lane terms vs spec forms (no execution)',
    text="For every (integer op, element type, architecture configuration) accepted by the library the kernel the overload set selects is compiled to LLVM IR and its SSA dataflow graph is normalised to one term per output lane; the obligation is structural equality with the spec form of the operation on that lane's operands (class P: holds for all operand values) or with a reviewed algorithm template (class I). 21 x86 configurations incl. the SSE2..AVX2/AVX512F kernel files the test suite never instantiates. 64-bit saturating add/sub on SSE2..SSE4.1 are listed undecided (not claimed)."),
+ 'C02': dict(level='proof', design='3.C02',
+   technique='static dataflow normalisation of optimised LLVM IR: IEEE operation terms and sign-bit slices',
+   text="Per (op, float|double, configuration): add/sub/mul/div/sqrt are the IEEE operation nodes on the lane's operands with no fast-math flag; neg/abs/copysign/bitofsign/bitwise ops are pure re-slicings of the sign bit / bit pattern; fma family is the fused node or mul-then-add; min/max are the x86 min/max or select(fcmp); isnan/isinf/isfinite/sign/signnz are the exact predicate terms. frexp/ldexp/nextafter/is_flint/is_even/is_odd value exactness is NOT decided (only their lane-locality, in C13)."),
+ 'C08': dict(level='proof', design='3.C08',
+   technique='static dataflow normalisation of optimised LLVM IR: rounding primitive + immediate, or reviewed emulation template',
+   text="ceil/floor/trunc/nearbyint/rint per (float|double, configuration): hardware paths must be roundps/pd / vrndscale with exactly the right rounding immediate or the llvm rounding intrinsic (class P); the SSE2..SSSE3 emulations must be the reviewed algorithms (cvtt + magnitude guard 2^k with mant<=k<=intbits-1, +-1 correction; add-and-subtract exactly 2^23/2^52 with sign restore) (class I). Double-precision trunc/ceil/floor on SSE2..SSSE3 (they go through the int64<->double magic-number conversion) and round() are listed undecided."),
  'C03': dict(level='proof', design='3.C03',
    technique='static dataflow normalisation of optimised LLVM IR: comparison predicate + mask encoding terms',
    text="Per (comparison, element type, configuration): every output mask lane (vector mask: all-ones/zero lanes; AVX512: k-register bit i) is the exact icmp/fcmp predicate of lane i's operands (ordered predicates for floats, une for !=), including the SSE2 64-bit and AVX512F 8/16-bit emulations (decided through reviewed identities: Hacker's Delight 2-12, eq-merge, Morton-table projection analysis of the constant LUT)."),
